@@ -195,7 +195,8 @@ func (g *gen) macros(op *Op, set map[string]string) []Macro {
 		return nil
 	}
 	var ms []Macro
-	for k, v := range set {
+	for _, k := range sortedKeys(set) { // (never draw while ranging over a Go map: the order is random)
+		v := set[k]
 		if len(v) > 0 && v[0] == '{' && g.r.Chance(60) {
 			switch g.r.Intn(3) {
 			case 0:
